@@ -17,7 +17,8 @@ EXPLANATION = (
     "0; (R08.5) the pre-filter measures the difference of both centres against the sum of BOTH bounding radii and the "
     "radius reads both half extents under a square root (necessary for 'never rejects an overlapping pair'); (R08.7) the "
     "inside/outside predicate of the clipper is a sign test (no tolerance); R08.3 also requires that the working copies "
-    "are clones and that Clone never carries the vertex cache (stale polygons after public-field writes).")
+    "are clones and that Clone never carries the vertex cache (stale polygons after public-field writes). "
+    "(R08.8) polygon generation and clipping compute in f64 (no f32 arithmetic before widening).")
 NOT_DECIDED = ["exactness of the clipped area and of the IoU value (f64 geometry)", "symmetry / rigid-motion invariance "
                "as numeric statements", "agreement of the closed form with the general path",
                "soundness of the pre-filter bound as an inequality (only its wiring is decided)"]
@@ -265,22 +266,74 @@ def radius_rule(ctx, R):
     b = ctx.anchor(R, 'utils::bbox::Universal2DBox::get_radius')
     if b is not None:
         e = ExprBuilder(b).place(0, ())
-        fs = {pl.fields[-1] for pl in e.places() if pl.root == ('param', 1)}
+        fs = {pl.fields[-1] for pl in e.places() if pl.root == ('param', 1) and pl.fields}
+        for x in e.walk():
+            if x.kind == 'call' and len(x.args) == 1 and roots(x) == {('param', 1)} and len(ctx.F.get(x.name)) == 1 and not x.args[0].strip().fields:
+                fs |= {pl.fields[-1] for pl in ExprBuilder(ctx.F.get(x.name)[0]).place(0, ()).places() if pl.fields}
         n += 1
         sq = [x for x in e.walk() if x.kind == 'call' and x.name.rsplit('::', 1)[-1] in ('sqrt', 'hypot')]
         ok = fs == {'aspect', 'height'} and bool(sq)
         if ok and sq[0].name.endswith('sqrt'):
             inner = uncast(sq[0].args[0])
+            # a private helper computing the squared radius of `self` is looked through
+            if inner.kind == 'call' and len(inner.args) == 1 and roots(inner) == {('param', 1)}:
+                cbs = ctx.F.get(inner.name)
+                if len(cbs) == 1 and cbs[0].nargs == 1:
+                    ctx.read(cbs[0])
+                    inner = uncast(ExprBuilder(cbs[0]).place(0, ()))
             ok = inner.kind == 'bin' and inner.name == 'Add' and all(
                 uncast(a).kind == 'bin' and uncast(a).name == 'Mul' and repr(uncast(a).args[0]) == repr(uncast(a).args[1])
                 for a in inner.args)
             if ok:
-                d = [{pl.fields[-1] for pl in a.places()} for a in inner.args]
+                d = [{pl.fields[-1] for pl in a.places() if pl.fields} for a in inner.args]
                 ok = sorted(map(sorted, d)) == [['aspect', 'height'], ['height']]
         ctx.check(ok, R, b, 'radius=sqrt(hw^2+hh^2)', repr(e)[:140],
                   'the bounding radius is %r: it must be the root of the sum of the squares of BOTH half extents '
                   '(half width reads aspect and height, half height reads height), otherwise the pre-filter can '
                   'reject overlapping boxes' % e)
+    return n
+
+
+ARITH = ('Add', 'Sub', 'Mul', 'Div', 'AddWithOverflow', 'SubWithOverflow', 'MulWithOverflow')
+
+
+def precision_rule(ctx, R):
+    """polygon generation and clipping compute in f64: inputs are widened BEFORE any arithmetic (f32 arithmetic at
+    coordinates ~1e4 moves vertices by ~1e-3, i.e. percents of a 0.1-sized box)"""
+    from lib import local_callee_bodies, all_closures
+    n = 0
+    bs = [b for b in ctx.F.fn_bodies() if b.npath.endswith('from') and 'Polygon' in b.locals[0] and
+          'Universal2DBox' in b.locals[1]]
+    if not bs:
+        ctx.fail(R, 'utils::bbox', 'ANCHOR-MISSING:polygon', 'polygon generator From<&Universal2DBox> for Polygon not found')
+        return 0
+    clip = ctx.F.one('utils::clipping::sutherland_hodgman_clip')
+    todo = list(bs) + ([clip] if clip is not None else [])
+    seen = set()
+    while todo:
+        b = todo.pop()
+        if b.npath in seen:
+            continue
+        seen.add(b.npath)
+        ctx.read(b)
+        narrow = []
+        for i in sorted(b.live_blocks()):
+            for s_ in b.blocks[i]['st']:
+                if s_['k'] == 'assign' and s_['rv']['k'] == 'bin' and s_['rv']['op'] in ARITH and \
+                        b.locals[s_['lhs']['l']].startswith('f32'):
+                    narrow.append('%s at %s' % (s_['rv']['op'], s_['ln']))
+            c = b.call_at(i)
+            if c is not None and 'f32' in c.callee and c.name in ('sin', 'cos', 'sin_cos', 'tan', 'sqrt', 'mul_add'):
+                narrow.append('%s at %s' % (c.callee, c.ln))
+        n += 1
+        ctx.check(not narrow, R, b, 'f64-arithmetic:' + b.npath.rsplit('::', 2)[-1], 'no f32 arithmetic',
+                  '%s computes vertex / clipping coordinates in f32 (%s): the polygon is rounded to the f32 grid of the '
+                  'box position before it is widened' % (b.npath, '; '.join(narrow[:4])))
+        for c in b.find_calls():
+            for cb in local_callee_bodies(ctx.F, c):
+                if cb.npath.startswith('utils::clipping'):
+                    todo.append(cb)
+        todo += all_closures(ctx.F, b)
     return n
 
 
@@ -293,6 +346,8 @@ def run(ctx):
     ctx.floor('R08.2', n2, 5)
     ctx.rule('R08.3', 'Universal2DBox::intersection: 0 only when too_far; else area of clip(l, r); vertices when cache empty')
     ctx.floor('R08.3', intersection_rule(ctx, 'R08.3'), 9)
+    ctx.rule('R08.8', 'polygon generation and clipping compute in f64 (inputs widened before arithmetic)')
+    ctx.floor('R08.8', precision_rule(ctx, 'R08.8'), 3)
     ctx.rule('R08.7', 'clipping predicates are sign tests (comparison with the constant 0)')
     ctx.floor('R08.7', clip_predicate_rule(ctx, 'R08.7'), 1)
     ctx.rule('R08.4', 'axis-aligned closed form: product of the two extents, only when both are positive')
